@@ -43,7 +43,7 @@ def run_case(case, trace_cache=True, schemas_text=None, aggregation_text=None, s
     'MIN_TIMESTAMP_LAG': case.get('lag', 0),
     'MAX_UPDATES_PER_SECOND': inf if case.get('updates_per_second') is None else case['updates_per_second'],
     'MAX_CREATES_PER_MINUTE': inf if case.get('creates_per_minute') is None else case['creates_per_minute'],
-    'LOG_UPDATES': case.get('log_updates', True), 'LOG_CREATES': case.get('log_creates', True), 'ENABLE_TAGS': False, 'USE_FLOW_CONTROL': False,
+    'LOG_UPDATES': case.get('log_updates', True), 'LOG_CREATES': case.get('log_creates', True), 'ENABLE_TAGS': case.get('enable_tags', True), 'USE_FLOW_CONTROL': False,
   }
   if case.get('shutdown_rate') is not None:
     overrides['MAX_UPDATES_PER_SECOND_ON_SHUTDOWN'] = case['shutdown_rate']
